@@ -52,7 +52,10 @@ def render (evs : List Ev) (closed : Bool) : String :=
   let prog := (evs.filterMap fun | .prog n => some n | _ => none).foldl (· + ·) 0
   let errs := evs.filterMap fun | .err e => some (showErr e) | _ => none
   let ws := evs.filterMap fun | .write c b => some s!"{c}={b}" | _ => none
-  s!"sent={listOr sent} prog={prog} errs={listOr errs} w={listOr ws} closed={if closed then 1 else 0}"
+  let bs := evs.filterMap fun
+    | .block c _ l i => some s!"{c}{if l then "l" else "r"}{i}"
+    | _ => none
+  s!"sent={listOr sent} prog={prog} blk={listOr bs} errs={listOr errs} w={listOr ws} closed={if closed then 1 else 0}"
 
 def parseNats (s : String) : Option (List Nat) :=
   if s == "-" then some [] else (s.splitOn ",").mapM String.toNat?
